@@ -275,14 +275,15 @@ func (d *driver) runValid(stream string, gd *gdef, r *hx.Rand, seed int64, emit 
 		okStep := true
 		pan := guard(func() {
 			withUUIDs(seed, func(rg *recGen) {
-				for _, w := range chain {
+				for hopIdx, w := range chain {
 					before := len(rg.got)
 					next, err := migrations.MigrateToVersion(cur, mustVersion(w), migrations.DefaultConfig)
 					hop := append([]string{}, rg.got[before:]...)
+					first := hopIdx == 0 // only the generated definition is valid at its version by construction
 					if err != nil {
 						fail(fmt.Sprintf("valid-definition-rejected:stepwise-to-%s", w), "MigrateToVersion returned an error on the way")
 						if emit {
-							d.addMigCase(stream, cur, w, hop, nil, err, true, nil, meta)
+							d.addMigCase(stream, cur, w, hop, nil, err, first, nil, meta)
 						}
 						okStep = false
 						return
@@ -293,7 +294,7 @@ func (d *driver) runValid(stream string, gd *gdef, r *hx.Rand, seed int64, emit 
 							b := readsOK(next)
 							rd = &b
 						}
-						d.addMigCase(stream, cur, w, hop, next, nil, true, rd, meta)
+						d.addMigCase(stream, cur, w, hop, next, nil, first, rd, meta)
 					}
 					cur = next
 				}
